@@ -720,6 +720,60 @@ orc_compiler_check_sizes (OrcCompiler *compiler)
       multiplier = 4;
     }
 
+    if ((insn->flags & ORC_INSTRUCTION_FLAG_X2) &&
+        (insn->flags & ORC_INSTRUCTION_FLAG_X4)) {
+      ORC_COMPILER_ERROR (compiler, "opcode %s has both x2 and x4", opcode->name);
+      compiler->result = ORC_COMPILE_RESULT_UNKNOWN_PARSE;
+      return;
+    }
+    /* operands must name variables */
+    for(j=0;j<ORC_STATIC_OPCODE_N_DEST;j++){
+      if (opcode->dest_size[j] != 0 && (insn->dest_args[j] < 0 ||
+          insn->dest_args[j] >= ORC_N_COMPILER_VARIABLES)) {
+        ORC_COMPILER_ERROR (compiler, "opcode %s dest[%d] is not a variable",
+            opcode->name, j);
+        compiler->result = ORC_COMPILE_RESULT_UNKNOWN_PARSE;
+        return;
+      }
+    }
+    for(j=0;j<ORC_STATIC_OPCODE_N_SRC;j++){
+      if (opcode->src_size[j] != 0 && (insn->src_args[j] < 0 ||
+          insn->src_args[j] >= ORC_N_COMPILER_VARIABLES)) {
+        ORC_COMPILER_ERROR (compiler, "opcode %s src[%d] is not a variable",
+            opcode->name, j);
+        compiler->result = ORC_COMPILE_RESULT_UNKNOWN_PARSE;
+        return;
+      }
+    }
+    /* a lane-wise prefix must still fit the largest variable size, also for
+     * constants and parameters whose own size is not compared below */
+    for(j=0;j<ORC_STATIC_OPCODE_N_SRC;j++){
+      if (multiplier * opcode->src_size[j] > ORC_MAX_VAR_SIZE &&
+          !(j >= 1 && (opcode->flags & ORC_STATIC_OPCODE_SCALAR))) {
+        ORC_COMPILER_ERROR (compiler, "opcode %s: x%d of a %d-byte operand",
+            opcode->name, multiplier, opcode->src_size[j]);
+        compiler->result = ORC_COMPILE_RESULT_UNKNOWN_PARSE;
+        return;
+      }
+    }
+    /* array loads read arrays, stores write destination arrays */
+    if ((opcode->flags & ORC_STATIC_OPCODE_LOAD) &&
+        !(opcode->flags & ORC_STATIC_OPCODE_INVARIANT) &&
+        compiler->vars[insn->src_args[0]].vartype != ORC_VAR_TYPE_SRC &&
+        compiler->vars[insn->src_args[0]].vartype != ORC_VAR_TYPE_DEST) {
+      ORC_COMPILER_ERROR (compiler, "opcode %s requires an array source",
+          opcode->name);
+      compiler->result = ORC_COMPILE_RESULT_UNKNOWN_PARSE;
+      return;
+    }
+    if ((opcode->flags & ORC_STATIC_OPCODE_STORE) &&
+        compiler->vars[insn->dest_args[0]].vartype != ORC_VAR_TYPE_DEST) {
+      ORC_COMPILER_ERROR (compiler, "opcode %s requires an array destination",
+          opcode->name);
+      compiler->result = ORC_COMPILE_RESULT_UNKNOWN_PARSE;
+      return;
+    }
+
     for(j=0;j<ORC_STATIC_OPCODE_N_DEST;j++){
       if (opcode->dest_size[j] == 0) continue;
       if (multiplier * opcode->dest_size[j] !=
